@@ -166,10 +166,11 @@ func c08R1(c *Ctx) {
 						ao := p.Origin(a)
 						okArg := false
 						what := ao.String()
-						if ao.IsCallTo("(*Message).buildWithBodyBytes") {
+						ffB, fbB := p.builders()
+						if ao.Kind == "call" && ao.Callee == fbB {
 							okArg = true
 							what = "replayed stored message"
-						} else if ao.IsCallTo("(*Message).build") {
+						} else if ao.Kind == "call" && ao.Callee == ffB {
 							ts, ok := p.msgTypesOf(ao.Recv.Val, 0)
 							okArg = ok && len(ts) == 1 && ts[0] == "4"
 							what = fmt.Sprintf("built message of type %v", ts)
